@@ -17,7 +17,7 @@ type docSpace struct {
 }
 
 func stdLeaves() []*ref.Node {
-	return []*ref.Node{ref.Str("s"), ref.Str(""), ref.Str("é\n\""), ref.Int(1), ref.Float(-2.5), ref.Bool(true), ref.Bool(false), ref.Null()}
+	return []*ref.Node{ref.Str("s"), ref.Str(""), ref.Str("\x7fé߿ࠀ\uffff𐀀\n\""), ref.Int(1), ref.Float(-2.5), ref.Bool(true), ref.Bool(false), ref.Null()}
 }
 
 func smallLeaves() []*ref.Node {
@@ -192,7 +192,11 @@ func renderL(b *bytes.Buffer, n *ref.Node, layout, ind int) {
 			sp()
 			nl(b, layout, ind+1)
 			if n.K == ref.KObj {
-				b.WriteString(ref.QuoteJSON(n.Keys[i]))
+				if layout == 1 || layout == 3 {
+					b.WriteString(ref.QuoteJSONEscaped(n.Keys[i]))
+				} else {
+					b.WriteString(ref.QuoteJSON(n.Keys[i]))
+				}
 				sp()
 				b.WriteByte(':')
 				sp()
@@ -207,7 +211,12 @@ func renderL(b *bytes.Buffer, n *ref.Node, layout, ind int) {
 		}
 		b.WriteByte(cl)
 	default:
-		b.WriteString(n.JSON())
+		if n.K == ref.KStr && (layout == 1 || layout == 3) {
+			// these two layouts spell every non-ASCII character as an escape
+			b.WriteString(ref.QuoteJSONEscaped(n.S))
+		} else {
+			b.WriteString(n.JSON())
+		}
 	}
 }
 
